@@ -155,7 +155,7 @@ def validate(path: str, n: int, workers: int | str = "auto", timeout: int = 3000
     v = r.verdicts()
     judged = [t for t, cl in v.items() if "ACCEPT" in cl or "REJECT" in cl]
     if not r.completed or len(judged) != n:
-        raise MachineryError(f"ScanTrace: {len(judged)}/{n} traces judged, rc={r.rc}\n" + "\n".join(r.out.splitlines()[-30:]))
+        raise MachineryError(f"ScanTrace: {len(judged)}/{n} traces judged, rc={r.rc}\n" + r.diagnosis())
     return v, r
 
 
